@@ -109,7 +109,8 @@ def fragment_roundtrip_check(res, rnd, q):
     """the hypotheses of C01_fragment_roundtrip on real data: for every enumerated operator tree x (<= 3 operators, minimal and full
     spelling, + random deeper ones): the model's tree for x (positions erased) is canonical (canb), and the tokens the real lexer
     produces for SQL(ParseExpr(x)) agree with its canonical spelling (same_tokensb)"""
-    cases = gens.precedence_cases(rnd, 3 if q else 4, 3000 if q else 60000)
+    # the 4-operator enumeration (thorough tier of C07) is millions of trees: here 3 operators in both tiers, more random deep trees in thorough
+    cases = gens.precedence_cases(rnd, 3, 3000 if q else 200000)
     xs = sorted(set(x for x, _ in cases))
     inp = "\n".join(hexs(x) for x in xs) + "\n"
     shape = vlib.run_lines(vlib.HARNESS, ["expr-shape"], inp)
@@ -625,6 +626,6 @@ def c07(res, st, std_coq):
                        "(i) ParseExpr's tree compared with the extracted Coq fragment parser run on the real lexer's tokens, (ii) ParseExpr's grouping compared "
                        "with the grouping the table prescribes (computed by the generator, independent of parser.go), (iii) SQL() keeps the number of "
                        "parentheses; distinct = distinct inputs" % (3 if q else 4))
-    res.assumptions += ["the round-trip theorem covers binary/unary/NOT/comparison operators, parentheses and primaries; IS, IN, BETWEEN, field access, subscript, "
+    res.assumptions += ["the round-trip theorem covers binary/unary/NOT operators, the whole comparison family (incl. IS, IN, BETWEEN, LIKE), parentheses and primaries; field access, subscript, "
                         "tuples are in the executable model and its correspondence but not yet in the theorem (C07_..._partial in DESIGN.md)",
                         "tokens are taken from the real lexer (lexer conformance is C13/C14); spell/lexer agreement is sampled by (ii)"]
